@@ -8,7 +8,27 @@ def budget(tier):
     return BUDGET[tier]
 
 
+def gen_crowd_case(rng):
+    """a crowd: 40-60 agents that all act in every step with orders of ONE lifetime, so that dozens of orders of one
+    side reach the end of their lifetime in the same step (bulk expiry); the run is repeated without a logger."""
+    n = rng.choice([40, 50, 60])
+    ttl = rng.choice([3, 4, 6])
+    tick = rng.choice([1.0, 0.5, 0.1])
+    cfg = {"simulation": {"markets": ["S0"], "agents": ["CROWD"], "sessions": [
+        {"sessionName": 0, "iterationSteps": rng.choice([30, 45]), "withOrderPlacement": True, "withOrderExecution": True,
+         "withPrint": False, "maxNormalOrders": n}]},
+        "S0": {"class": "Market", "tickSize": tick, "marketPrice": 500 * tick, "outstandingShares": 1000},
+        "CROWD": {"class": "ScriptAgent", "numAgents": n, "markets": ["S0"], "cashAmount": 100000, "assetVolume": 50,
+                  "program": {"p_act": 1.0, "max_batch": 1, "actions": [
+                      [4, {"a": "limit", "side": "buy", "ref": "p0", "off": [-40, -3], "vol": [1, 2], "ttl": [ttl]}],
+                      [4, {"a": "limit", "side": "sell", "ref": "p0", "off": [3, 40], "vol": [1, 2], "ttl": [ttl]}],
+                      [2, {"a": "limit", "side": "any", "ref": "p0", "off": [-6, 6], "vol": [1, 3], "ttl": [ttl]}]]}}}
+    return {"drive": "runner", "seed": rng.randrange(1 << 29) * 4, "config": cfg, "profile": "accounting", "crowd": True}
+
+
 def gen_case(rng, tier, idx):
+    if idx % 25 == 11:
+        return gen_crowd_case(rng)
     case = gen_accounting_case(rng, tier, hft=(rng.choice([1, 2, 3]) if idx % 2 == 0 else None))
     if idx % 5 == 2:
         # an event that acts on the markets at session boundaries: what it submits or cancels before a session opens
